@@ -99,7 +99,9 @@ def main(argv):
     tier = C.tier()
     rep = C.Report(PID)
     rep.functions |= {"pysnark.runtime.LinComb.* / add_constraint / add_guard / guarded", "pysnark.boolean.LinCombBool.*",
-                      "pysnark.branching.if_then_else", "pysnark.array.Array.__getitem__/__setitem__"}
+                      "pysnark.branching.if_then_else", "pysnark.array.Array.__getitem__/__setitem__",
+                      "process rows: one block-API program (if/else, while, for; five variables) traced in interpreters that differ in "
+                      "PYTHONHASHSEED and in the secret inputs -- one recorded system"}
     rep.bounds = dict(bitlength=[4] if tier == "quick" else [4, 8], programs="catalogue singles + depth-2 compositions",
                       modes="errors on + ignore_errors pooled; guard g=0/1 (+ignore_errors) pooled; nested guards (thorough)",
                       operand_magnitude="< 2^64" if tier == "quick" else "< 2^120")
@@ -110,4 +112,7 @@ def main(argv):
         js = [j for j in js if any(a in j["name"] for a in argv)]
     for r in C.run_jobs("c06", js):
         rep.absorb(r)
+    if not argv or any(a in "hashseed" for a in argv):
+        from .c06_rows import part_b
+        part_b(rep, tier, C.load_known(PID))
     return rep.finish("./check C06")
